@@ -1,5 +1,8 @@
 """C02 - shared (fractional) GPU devices are never oversubscribed."""
+import os
+
 import st_cluster
+import st_clustermodel
 
 LEVEL = "model_checking"
 PREFIXES = ["C02_"]
@@ -11,10 +14,9 @@ def run(ctx):
                        "binder's labelling played by the harness; non-trivial = at least one decision; distinct by scenario content")
     ctx.assumptions += ["GPU devices are anonymous to the scheduler: exclusivity = whole devices + open groups <= GPU count",
                         "node-level accounting state machine is covered by the NodeAcct stage (st_nodeacct) when present"]
+    st_clustermodel.run_stage(ctx, PREFIXES, thorough=not ctx.quick)
     n = 240 if ctx.quick else 6000
     st_cluster.run_stage(ctx, PREFIXES, [("fraction", n * 2 // 3), ("mixed", n // 3)])
-    try:
+    if os.path.exists(os.path.join(os.path.dirname(__file__), "st_nodeacct.READY")):
         import st_nodeacct
-    except ImportError:
-        return
-    st_nodeacct.run_stage(ctx, ["C02_"])
+        st_nodeacct.run_stage(ctx, ["C02_"])
